@@ -83,7 +83,14 @@ def _defs(md, key):
     for fr in md._data:
         r = raw(fr)
         try:
-            if type(r) is InstanceDict and isinstance(key, str) and key and key not in r.cache:
+            if type(r) is InstanceDict and isinstance(key, str) and key:
+                if key in r.cache:
+                    try:
+                        r[key]                      # a value it has cached it keeps serving
+                        out.append('y')
+                        continue
+                    except _MISS:
+                        pass                        # a remembered miss is not a fact about the client
                 if key[0] == '_':
                     out.append('y' if key == '__str__' else 'n')
                     continue
